@@ -173,6 +173,10 @@ int_comp!(Word, u32);
 int_comp!(Byte, u8);
 int_comp!(Quad, u64);
 
+/// A component type that no archetype of any world under test holds (second member of the
+/// `OneOf<C, Nope>` parameters used by the borrow matrix).
+int_comp!(Nope, u64);
+
 /// Zero-sized, untracked.
 #[derive(Clone, Debug, PartialEq)]
 pub struct Zst;
